@@ -48,12 +48,26 @@ class CallMixin:
 
     def eval_args(self, e, st, exc):
         """-> list of (st, [positional SV], {kw: SV})"""
-        exprs = [a for a in e.args if not isinstance(a, ast.Starred)] + [k.value for k in e.keywords if k.arg]
+        starred = [isinstance(a, ast.Starred) for a in e.args]
+        exprs = [(a.value if isinstance(a, ast.Starred) else a) for a in e.args] + [k.value for k in e.keywords if k.arg]
         names = [k.arg for k in e.keywords if k.arg]
         npos = len(exprs) - len(names)
         out = []
         for s, vs in self.ev_seq(exprs, st, exc):
-            out.append((s, vs[:npos], dict(zip(names, vs[npos:]))))
+            pos = []
+            for is_star, v in zip(starred, vs[:npos]):
+                if not is_star:
+                    pos.append(v)
+                    continue
+                if v.ty.kind == "opt" and v.ty.args[0].kind == "tuple":
+                    self.require_noexc(s, smt.Not(v.ts[0]), "TypeError", "star_of_none", exc)
+                    v = opt_inner(v)
+                if v.ty.kind != "tuple":
+                    # *args of unknown arity: dropped (the call is abstracted by its directive or as opaque)
+                    self.note("starred argument of type %r dropped" % (v.ty,))
+                    continue
+                pos += tuple_items(v)      # f(*t) with a tuple of known arity: its items
+            out.append((s, pos, dict(zip(names, vs[npos:]))))
         return out
 
     # ------------------------------------------------------------- spec macros
